@@ -61,7 +61,7 @@ def children_in_selector(cx, rule, what):
     flt = [c for c in f.calls() if re.search(r"Iterator(>)?::filter(::<.*>)?$", c.q)]
     others = [c for c in f.calls() if re.search(r"Iterator(>)?::(skip|take|step_by|skip_while|take_while|filter_map|find|nth|rev|chain|zip)(::<.*>)?$", c.q)]
     if len(flt) != 1:
-        raise Anchor("children_in: expected one filter")
+        return _children_in_loop_form(cx, rule, what, f, others)
     cl = pa.root(f, flt[0].args[1])
     if cl[0] != "closure" or cl[1] not in m.fns:
         raise Anchor("children_in: filter argument is not a local closure")
@@ -88,6 +88,59 @@ def children_in_selector(cx, rule, what):
           "Node::children_in returns an output exactly when its kind equals the kind asked for AND its `on` equals the `on` asked for%s" % (
               "" if (ok and not others) else " - but the filter %s%s" % (why, (", extra adaptors %s" % [c.q.split("::")[-1] for c in others]) if others else "")), g.loc())
 
+
+
+def _children_in_loop_form(cx, rule, what, f, others):
+    """the same obligation when children_in is written as an explicit loop that pushes the matching outputs"""
+    import re
+    from vlib.model import Prov, Anchor, Call, ITER_NEXT
+    from vlib.ctrl import reach_table, bool_truth, deciding
+    m = cx.m
+    pa = Prov(m, "alias")
+    push = [c for c in f.calls() if re.search(r"Vec::<.*>::push$", c.q)]
+    if len(push) != 1:
+        raise Anchor("children_in: neither one filter nor one push found")
+
+    def names_of(fn, c):
+        out = set()
+        for a in c.args:
+            r = pa.root(fn, a)
+            if r[0] == "param" and not [x for x in r[3] if x != "*"]:
+                out.add("arg:" + (r[2] or "?"))
+            else:
+                fs = r[3] if r[0] in ("param", "call", "local") else (r[2] if r[0] in ("upvar", "field") else ())
+                fs = [x for x in fs if not (x.startswith("@") or x.isdigit() or x in ("*", "[]"))]
+                if fs:
+                    out.add("field:" + fs[-1])
+        return out
+
+    def classify(r, neg, fn):
+        if r[0] == "call" and re.search(r"PartialEq(<.*>)?>::(eq|ne)$", r[1]):
+            ns = names_of(fn, Call(fn, r[2]))
+            t = bool_truth(neg)
+            if r[1].endswith("::ne"):
+                t = {k: (not v) for k, v in t.items()}
+            if ns == {"arg:typ", "field:typ"}:
+                return ("typ", t)
+            if ns == {"arg:on", "field:on"}:
+                return ("on", t)
+        return None
+
+    names, reach = reach_table(m, f, push[0].b, classify)
+    ok = names == ["on", "typ"] and {tuple(sorted(x)) for x in reach} == {(("on", True), ("typ", True))}
+    extra = []
+    for g in deciding(m, f, push[0].b, mode="alias"):
+        if g.neutral:
+            continue
+        r = g.root
+        if classify(r, g.neg, f) is not None:
+            continue
+        if r[0] == "discr" and r[1][0] == "call" and ITER_NEXT.search(r[1][1]):
+            continue
+        extra.append(root_str(r))
+    cx.ob(rule, "%s:selector" % what, ok and not extra and not others,
+          "Node::children_in returns an output exactly when its kind equals the kind asked for AND its `on` equals the `on` asked for%s" % (
+              "" if (ok and not extra and not others) else " - but the push is reachable under %s, other conditions %s" % (sorted(str(dict(x)) for x in reach), extra)), push[0].loc)
 
 
 EVENTS = {"Push", "Remove", "Submit", "Next", "Back", "Cancel", "Abort", "Skip", "Error", "SetVars", "SetProcessVars"}
